@@ -8,12 +8,17 @@ whatever happened) and to an identically configured grader with debug=False unde
 schedule.  A reference model of the front door predicts the debug=False outcome from the raw one.
 """
 import itertools
+import collections
 from ..core import Family, Result, viol, HarnessError
 from .. import chooser
 
+from voluptuous import Required
+
 from mitxgraders import (StringGrader, FormulaGrader, NumericalGrader, MatrixGrader, SingleListGrader, ListGrader,
-                         IntervalGrader, SumGrader, MathArray, RealMatrices, DiscreteSet)
-from mitxgraders.exceptions import MITxError, StudentFacingError, ConfigError
+                         IntervalGrader, SumGrader, MathArray, RealMatrices, DiscreteSet, between_comparer)
+from mitxgraders.baseclasses import ItemGrader
+from mitxgraders.exceptions import MITxError, StudentFacingError, ConfigError, InvalidInput, MissingInput, InputTypeError
+from mitxgraders.helpers.calc.exceptions import CalcError, UndefinedVariable, MathArrayShapeError
 import mitxgraders.helpers.calc.expressions as X
 
 PROPERTY = 'C02'
@@ -109,14 +114,27 @@ def fresh_parser_every(fam, n=20000):
         X.PARSER = X.MathParser()
 
 
-def math_graders(debug):
+def dbg(debug):
+    """the debug twin passes debug=True; the debug-off grader does NOT pass the option at all (documented default: off)"""
+    return {'debug': True} if debug else {}
+
+
+def formula_scope():
+    return dict(variables=['x', 'n'], user_functions={'f': lambda t: t * t - 3}, sample_from={'x': [2, 3], 'n': DiscreteSet((7,))},
+                user_constants={'m': 6}, samples=2)
+
+
+def matrix_scope():
     A = MathArray([[1.0, 2.0], [3.0, 5.0]])
+    return dict(variables=['x', 'A'], sample_from={'A': DiscreteSet(A)}, max_array_dim=2, user_functions={'f': lambda t: t * t - 3},
+                samples=2)
+
+
+def math_graders(debug):
     return {
-        'Formula': FormulaGrader(answers='x+1', variables=['x', 'n'], user_functions={'f': lambda t: t * t - 3}, debug=debug,
-                                 sample_from={'x': [2, 3], 'n': DiscreteSet((7,))}, user_constants={'m': 6}, samples=2),
-        'Numerical': NumericalGrader(answers='2.5', debug=debug),
-        'Matrix': MatrixGrader(answers='[1,2]', variables=['x', 'A'], sample_from={'A': DiscreteSet(A)}, max_array_dim=2,
-                               user_functions={'f': lambda t: t * t - 3}, debug=debug, samples=2),
+        'Formula': FormulaGrader(answers='x+1', **dict(formula_scope(), **dbg(debug))),
+        'Numerical': NumericalGrader(answers='2.5', **dbg(debug)),
+        'Matrix': MatrixGrader(answers='[1,2]', **dict(matrix_scope(), **dbg(debug))),
     }
 
 
@@ -312,27 +330,34 @@ ITEMS = ['1', 'x', '', ' ', '1+', '(', 'a,b', ';', '[', ']', '1,2']
 
 
 def list_graders(debug):
-    sub = lambda: FormulaGrader(variables=['x'], debug=debug)
+    d = dbg(debug)
+    sub = lambda: FormulaGrader(variables=['x'], **d)
     # subgraders of SingleList/Interval graders do not share the parent's debug log (a debug=True subgrader there fails
     # with AttributeError in debug mode only, which would hide the raw outcome): only the outer grader is the debug twin
     isub = lambda: FormulaGrader(variables=['x'])
     return {
-        'SingleList': (SingleListGrader(answers=['1', 'x'], subgrader=isub(), debug=debug), 'single'),
-        'SingleListSemi': (SingleListGrader(answers=['1', 'x'], subgrader=isub(), delimiter=';', length_error=True, debug=debug), 'single'),
+        'SingleList': (SingleListGrader(answers=['1', 'x'], subgrader=isub(), **d), 'single'),
+        'SingleListSemi': (SingleListGrader(answers=['1', 'x'], subgrader=isub(), delimiter=';', length_error=True, **d), 'single'),
         'SingleListNested': (SingleListGrader(answers=[['1', 'x'], ['x', '1']], subgrader=SingleListGrader(subgrader=isub()),
-                                              delimiter=';', debug=debug), 'single'),
-        'Interval': (IntervalGrader(answers='[1,2)', debug=debug), 'single'),
-        'IntervalFormula': (IntervalGrader(answers='[x,2*x]', subgrader=isub(), debug=debug), 'single'),
-        'String': (StringGrader(answers='1', debug=debug), 'single'),
-        'List2': (ListGrader(answers=['1', 'x'], subgraders=sub(), debug=debug), 'list2'),
-        'List2Ordered': (ListGrader(answers=['1', 'sibling_1+x'], subgraders=sub(), ordered=True, debug=debug), 'list2'),
-        'List3Siblings': (ListGrader(answers=['sibling_2+sibling_3', 'x', 'y'], subgraders=FormulaGrader(variables=['x', 'y'], debug=debug),
-                                     ordered=True, debug=debug), 'list3'),
-        'ListGrouped': (ListGrader(answers=[['1', 'x'], ['x', '1']], subgraders=ListGrader(subgraders=sub(), debug=debug),
-                                   grouping=[1, 1, 2, 2], debug=debug), 'list4'),
-        'Sum': (SumGrader(answers=dict(lower='1', upper='3', summand='x', summation_variable='x'), debug=debug), 'list4'),
+                                              delimiter=';', **d), 'single'),
+        'Interval': (IntervalGrader(answers='[1,2)', **d), 'single'),
+        'IntervalFormula': (IntervalGrader(answers='[x,2*x]', subgrader=isub(), **d), 'single'),
+        'String': (StringGrader(answers='1', **d), 'single'),
+        'List2': (ListGrader(answers=['1', 'x'], subgraders=sub(), **d), 'list2'),
+        'List2Ordered': (ListGrader(answers=['1', 'sibling_1+x'], subgraders=sub(), ordered=True, **d), 'list2'),
+        'List3Siblings': (ListGrader(answers=['sibling_2+sibling_3', 'x', 'y'], subgraders=FormulaGrader(variables=['x', 'y'], **d),
+                                     ordered=True, **d), 'list3'),
+        'ListGrouped': (ListGrader(answers=[['1', 'x'], ['x', '1']], subgraders=ListGrader(subgraders=sub(), **d),
+                                   grouping=[1, 1, 2, 2], **d), 'list4'),
+        'Sum': (SumGrader(answers=dict(lower='1', upper='3', summand='x', summation_variable='x'), **d), 'list4'),
         'Sum1': (SumGrader(answers=dict(lower='1', upper='3', summand='n', summation_variable='n'), input_positions={'summand': 1},
-                           debug=debug), 'single'),
+                           **d), 'single'),
+        # other nestings of the same boxes: one grader PER box (text grader first, formula grader later), single-box lists
+        # inside a multi-box list, several alternative answer lists without partial credit
+        'ListMixed': (ListGrader(answers=['1', 'x'], subgraders=[StringGrader(**d), sub()], ordered=True, **d), 'list2'),
+        'ListOfSingleLists': (ListGrader(answers=[['1', 'x'], ['x', '1']], subgraders=SingleListGrader(subgrader=isub()), **d), 'list2'),
+        'ListAlternatives': (ListGrader(answers=(['1', 'x'], ['x', '2'], ['x', 'x']), subgraders=sub(), partial_credit=False, **d),
+                             'list2'),
     }
 
 
@@ -340,8 +365,9 @@ class ListShapes(Family):
     name = 'list_interval_sum_shapes'
     timeout = 8.0
     timeout_sig = 'non-termination'
-    rule = ('SingleListGrader (two delimiters, nested), IntervalGrader, StringGrader, ListGrader (flat, ordered with siblings, grouped) and '
-            'SumGrader: single-input graders get every delimiter-joined tuple of <=3 items from %r with , and ; and bracket characters; '
+    rule = ('SingleListGrader (two delimiters, nested), IntervalGrader, StringGrader, ListGrader (flat, ordered with siblings, grouped, '
+            'one grader per box with a text grader first, single-box lists inside a list, alternative answer lists without partial '
+            'credit) and SumGrader: single-input graders get every delimiter-joined tuple of <=3 items from %r with , and ; and bracket characters; '
             'list graders get every tuple of the right length [4 boxes: over the first 6 items]' % (ITEMS,))
 
     def setup(self, tier):
@@ -367,7 +393,7 @@ class ListShapes(Family):
                 for tup in itertools.product(range(len(ITEMS)), repeat=2):
                     yield (gname, [ITEMS[i] for i in tup])
             elif kind == 'list3':
-                items3 = ['x', 'y', 'x+y', 'q', '1', '', 'sibling_1', 'sibling_3', '1+', '(']
+                items3 = ['x', 'y', 'x+y', 'q', '1', '', 'sibling_1', 'sibling_3', '1+', '(', ' ', '1/0']
                 for tup in itertools.product(range(len(items3)), repeat=3):
                     yield (gname, [items3[i] for i in tup])
             else:
@@ -445,15 +471,24 @@ class Anticipated(Family):
             'overflow, wrong arity, function domain, shape-illegal array arithmetic incl. non-integer and COMPLEX matrix powers, wrong '
             'answer shape) submitted with debug off, alone and after all the others: each must surface as its specific documented '
             'error class with a message free of raw line breaks -- not as the generic "Could not check input" error' % len(ANTICIPATED))
+    tag = 'anticipated'
+
+    def table(self):
+        return ANTICIPATED
+
+    def build(self):
+        return math_graders(False)
 
     def setup(self, tier):
-        self.gn = math_graders(False)
+        self.gn = self.build()
+        self.rows = self.table()
 
     def cases(self, tier):
-        return iter(range(len(ANTICIPATED)))
+        return iter(range(len(self.table())))
 
     def describe(self, case):
-        k, inp, what, classes = ANTICIPATED[case]
+        row = self.table()[case]
+        k, inp, what, classes = row[:4]
         return {'grader': k, 'input': inp, 'problem': what, 'expected_error': list(classes)}
 
     def check(self, case):
@@ -461,7 +496,7 @@ class Anticipated(Family):
         # student's mistake leaves behind must not change how the next one is reported
         res = self.check_one(case, ())
         if res.violation is None:
-            res2 = self.check_one(case, [j for j in range(len(ANTICIPATED)) if j != case])
+            res2 = self.check_one(case, [j for j in range(len(self.rows)) if j != case])
             if res2.violation is not None:
                 res2.violation['sig'] = 'after-other-mistakes:' + res2.violation['sig']
                 res2.violation['msg'] = 'after all other anticipated mistakes were submitted first: ' + res2.violation['msg']
@@ -469,10 +504,12 @@ class Anticipated(Family):
         return res
 
     def check_one(self, case, prelude):
-        k, inp, what, classes = ANTICIPATED[case]
+        row = self.rows[case]
+        k, inp, what, classes = row[:4]
+        exact = row[4] if len(row) > 4 else None
         g = self.gn[k]
         for j in prelude:
-            kj, inpj = ANTICIPATED[j][0], ANTICIPATED[j][1]
+            kj, inpj = self.rows[j][0], self.rows[j][1]
 
             def pre(ch, kj=kj, inpj=inpj):
                 try:
@@ -491,19 +528,377 @@ class Anticipated(Family):
                 return ('err', e)
         _, got = chooser.run_with(body)
         if got[0] == 'ok':
-            return Result('graded', True, viol('anticipated:graded-instead-of-error:' + what.replace(' ', '-'),
+            return Result('graded', True, viol(self.tag + ':graded-instead-of-error:' + what.replace(' ', '-'),
                                                '%s grader, input %r (%s): expected %s, but it was graded: %r' % (k, inp, what, '/'.join(classes), got[1]),
                                                list(classes), got[1]))
         e = got[1]
         names = [c.__name__ for c in type(e).__mro__]
         if not any(c in names for c in classes):
             return Result('wrong-class:' + type(e).__name__, True,
-                          viol('anticipated:specific-error-lost:' + what.replace(' ', '-'),
+                          viol(self.tag + ':specific-error-lost:' + what.replace(' ', '-'),
                                '%s grader, input %r (%s): expected %s, got %s: %s' % (k, inp, what, '/'.join(classes), type(e).__name__, str(e)[:200]),
                                list(classes), '%s: %s' % (type(e).__name__, str(e)[:200])))
         if '\n' in str(e).replace('<br/>\n', ''):
-            return Result('newline', True, viol('anticipated:raw-line-break', 'message of %s has a raw line break' % type(e).__name__))
+            return Result('newline', True, viol(self.tag + ':raw-line-break', 'message of %s has a raw line break' % type(e).__name__))
+        if str(e).startswith('Invalid Input: Could not check input'):
+            return Result('generic', True, viol(self.tag + ':generic-message-for-a-specific-problem:' + what.replace(' ', '-'),
+                                                '%s grader, input %r (%s): the generic message was shown: %s' % (k, inp, what, str(e)[:200])))
+        if exact is not None and str(e) != exact:
+            return Result('message-changed', True,
+                          viol(self.tag + ':configured-message-changed:' + what.replace(' ', '-'),
+                               '%s grader, input %r (%s): message %r, the author configured %r' % (k, inp, what, str(e)[:200], exact), exact,
+                               str(e)[:300]))
         return Result('kept:' + type(e).__name__, True)
+
+
+# ---------------------------------------------------------------------------------------------------------------
+# Anticipated mistakes reached through OTHER grader classes and nestings.  The differential (debug twin) oracle cannot
+# see a wrapper that swallows or re-labels a student's mistake, because both twins do the same; here the expected class
+# comes from the table above, whatever grader the formula box sits in.
+
+def wrapper_graders():
+    F = lambda: FormulaGrader(**formula_scope())
+    M = lambda: MatrixGrader(**matrix_scope())
+    sum_scope = dict(formula_scope())
+    sum_scope.pop('samples')
+    return collections.OrderedDict([
+        # name -> (grader, table key of the rows it takes, [functions text -> student input])
+        ('SingleList;/first', (SingleListGrader(answers=['1', 'x'], subgrader=F(), delimiter=';'), 'Formula', [lambda s: s + ';1'])),
+        ('SingleList;/later', (SingleListGrader(answers=['1', 'x'], subgrader=F(), delimiter=';'), 'Formula', [lambda s: '1;' + s])),
+        ('SingleList;/ordered', (SingleListGrader(answers=['1', 'x'], subgrader=F(), delimiter=';', ordered=True, length_error=True),
+                                 'Formula', [lambda s: s + ';1', lambda s: '1;' + s])),
+        ('SingleList;/extra-item', (SingleListGrader(answers=['1', 'x'], subgrader=F(), delimiter=';'), 'Formula',
+                                    [lambda s: '1;x;' + s])),
+        ('SingleListNested', (SingleListGrader(answers=[['1', 'x'], ['x', '1']], subgrader=SingleListGrader(subgrader=F(), delimiter=';'),
+                                               delimiter='|'), 'Formula', [lambda s: s + ';1|1;1', lambda s: '1;1|1;' + s])),
+        ('List', (ListGrader(answers=['1', 'x'], subgraders=F()), 'Formula', [lambda s: [s, '1'], lambda s: ['1', s]])),
+        ('ListOrdered', (ListGrader(answers=['1', 'x'], subgraders=F(), ordered=True), 'Formula', [lambda s: [s, '1'], lambda s: ['1', s]])),
+        ('ListPerBox', (ListGrader(answers=['cat', 'x'], subgraders=[StringGrader(), F()], ordered=True), 'Formula',
+                        [lambda s: ['cat', s], lambda s: ['dog', s]])),
+        ('ListAlternatives', (ListGrader(answers=(['1', 'x'], ['x', '2']), subgraders=F(), partial_credit=False), 'Formula',
+                              [lambda s: [s, '1'], lambda s: ['1', s]])),
+        ('ListGrouped', (ListGrader(answers=[['1', 'x'], ['x', '1']], subgraders=ListGrader(subgraders=F()), grouping=[1, 1, 2, 2]),
+                         'Formula', [lambda s: [s, '1', '1', '1'], lambda s: ['1', '1', '1', s]])),
+        ('ListOfSingleLists', (ListGrader(answers=[['1', 'x'], ['x', '1']], subgraders=SingleListGrader(subgrader=F(), delimiter=';')),
+                               'Formula', [lambda s: [s + ';1', '1;1'], lambda s: ['1;1', '1;' + s]])),
+        ('Interval;', (IntervalGrader(answers='[1;2]', delimiter=';', subgrader=F()), 'Formula',
+                       [lambda s: '[' + s + ';2]', lambda s: '(1;' + s + ')'])),
+        ('Sum/lower', (SumGrader(answers=dict(lower='1', upper='3', summand='k', summation_variable='k'), **sum_scope), 'Sum',
+                       [lambda s: [s, '3', 'k', 'k']])),
+        ('Sum/upper', (SumGrader(answers=dict(lower='1', upper='3', summand='k', summation_variable='k'), **sum_scope), 'Sum',
+                       [lambda s: ['1', s, 'k', 'k']])),
+        ('Sum/summand', (SumGrader(answers=dict(lower='1', upper='3', summand='k', summation_variable='k'), **sum_scope), 'Sum',
+                         [lambda s: ['1', '3', s, 'k']])),
+        ('Sum/only-summand', (SumGrader(answers=dict(lower='1', upper='3', summand='k', summation_variable='k'),
+                                        input_positions={'summand': 1}, **sum_scope), 'Sum', [lambda s: s, lambda s: [s]])),
+        ('SingleList;/Matrix', (SingleListGrader(answers=['[1,2]', '[1,2]'], subgrader=M(), delimiter=';'), 'Matrix',
+                                [lambda s: s + ';[1,2]', lambda s: '[1,2];' + s])),
+        ('List/Matrix', (ListGrader(answers=['[1,2]', '[1,2]'], subgraders=M()), 'Matrix', [lambda s: [s, '[1,2]'], lambda s: ['[1,2]', s]])),
+        ('ListPerBox/Matrix', (ListGrader(answers=['1', '[1,2]'], subgraders=[F(), M()], ordered=True), 'Matrix', [lambda s: ['1', s]])),
+    ])
+
+
+def wrapped_rows():
+    """(wrapper name, index of the input builder, row of ANTICIPATED) in a fixed order"""
+    rows = []
+    for name, (_, key, builders) in wrapper_graders().items():
+        for j, row in enumerate(ANTICIPATED):
+            if key == 'Sum':
+                # a sum's fields are formula boxes of the same scope; a vector is not forbidden there (the summand may be one)
+                if row[0] != 'Formula' or row[2] == 'vector where forbidden':
+                    continue
+            elif row[0] != key:
+                continue
+            for b in range(len(builders)):
+                rows.append((name, b, j))
+    return rows
+
+
+def long_rows():
+    """anticipated mistakes at the end of / inside LONG flat inputs (sizes far beyond the token-string bound)"""
+    rows = []
+    for n in (10, 300, 2000):
+        ones = '+'.join(['1'] * n)
+        rows += [
+            ('Formula', ones + '+', 'malformed formula after %d terms' % n, ('UnableToParse',)),
+            ('Formula', '(' + ones, 'unbalanced bracket before %d terms' % n, ('UnbalancedBrackets',)),
+            ('Formula', ones + ')', 'unbalanced bracket after %d terms' % n, ('UnbalancedBrackets',)),
+            ('Formula', ones + '+y', 'unknown variable after %d terms' % n, ('UndefinedVariable',)),
+            ('Formula', 'y+' + ones, 'unknown variable before %d terms' % n, ('UndefinedVariable',)),
+            ('Formula', ones + '+g(1)', 'unknown function after %d terms' % n, ('UndefinedFunction',)),
+            ('Formula', ones + '+1/0', 'division by zero after %d terms' % n, ('CalcZeroDivisionError',)),
+            ('Formula', '1/0+' + ones, 'division by zero before %d terms' % n, ('CalcZeroDivisionError',)),
+            ('Formula', '1/(' + ones + '-%d)' % n, 'division by a sum of %d terms that is zero' % n, ('CalcZeroDivisionError',)),
+            ('Formula', ones + '+10^400', 'overflow after %d terms' % n, ('CalcOverflowError',)),
+            ('Formula', 'f(' + ','.join(['1'] * (n + 1)) + ')', 'user function with %d arguments' % (n + 1), ('ArgumentError',)),
+            ('Formula', 'sin(' + ','.join(['1'] * (n + 1)) + ')', 'sin with %d arguments' % (n + 1), ('ArgumentError',)),
+            ('Formula', 'q' * n, 'unknown variable of %d letters' % n, ('UndefinedVariable',)),
+            ('Formula', 'q' * n + '(1)', 'unknown function of %d letters' % n, ('UndefinedFunction',)),
+            ('Formula', '1e' + '9' * n, 'literal with an exponent of %d digits' % n, ('CalcOverflowError',)),
+            ('Formula', ')' * n, '%d closing brackets' % n, ('UnbalancedBrackets',)),
+            ('Formula', '([{' * n, '%d opening brackets of three kinds' % (3 * n), ('UnbalancedBrackets',)),
+            ('Formula', '1' + ' ' * n + '+', 'dangling operator after %d spaces' % n, ('UnableToParse',)),
+            ('Matrix', '[' + ','.join(['1'] * (n + 2)) + ']', 'vector with %d components for a 2-component answer' % (n + 2),
+             ('InputTypeError',)),
+            ('Matrix', '[' + ','.join(['1'] * (n + 2)) + ']+[1,2]', 'adding vectors with %d and 2 components' % (n + 2),
+             ('MathArrayShapeError',)),
+            ('Matrix', '[1,2]' + '+[1,2]' * (n // 4) + '+[1,2,3]', 'adding a 3-vector after %d 2-vectors' % (n // 4 + 1),
+             ('MathArrayShapeError',)),
+            ('Numerical', ones + '+x', 'variable in a numerical answer after %d terms' % n, ('UndefinedVariable',)),
+        ]
+        if n >= 2000:
+            rows += [
+                ('Formula', '*'.join(['x'] * n), 'overflow in a product of %d factors >= 2' % n, ('CalcOverflowError',)),
+                ('Formula', '9' * n, 'literal of %d digits' % n, ('CalcOverflowError',)),
+                ('Formula', '3' + '^3' * n, 'power tower of height %d' % n, ('CalcOverflowError',)),
+            ]
+    return rows
+
+
+ZERO_FORMS = ['0', '0.0', '.0', '0e5', '(-0)', '(1-1)', '(x-x)', '(0*x)', '1e-400', '(1e-200*1e-200)', '(2^-2000)', '(0^2)', 'sin(0)',
+              'floor(0.5)', 're(i)', 'abs(0)', '(i-i)', '(0*i)', '(n-7)', '(m-6)']
+NUMERATORS = ['1', 'x', '-2.5', 'i', '1e308', '(1+i)', '0', 'f(2)', 'n', 'm']
+DIVISIONS = ['%s/%s', '1+%s/%s', '(%s)/%s*2', 'f(%s/%s)', '2^(%s/%s)', '%s/%s/2', '%s*%s^-1', '%s*%s^-2.5', 'sqrt(%s/%s)']
+ARRAY_DIVISIONS = ['[1,%s/%s]', '[1,2]*(%s/%s)', '[%s,2]/%s', '[[%s,2],[3,4]]/%s', '%s*A/%s']
+BIG_BASES = ['10', '(x+8)', '1e308', '(-10)', '(10*i)', '(10+10*i)', 'n', 'm', '1e3']
+BIG_EXPONENTS = ['400', '1e3', '1e308', '(x*200)', '400.5', '(n*100)', '(400+i)', '(2^10)']
+POWERS = ['%s^%s', '1+%s^%s', '-%s^%s', 'f(%s^%s)', '%s^%s/%s^%s', '0*%s^%s', 'sqrt(%s^%s)', '(%s^%s)^0', '%s^%s-%s^%s']
+OVERFLOWS = ['1e308*10', '1e308+1e308', '-1e308-1e308', '1e308*x', 'x*1e308*x', 'exp(710)', 'exp(1e308)', 'cosh(711)', 'sinh(-711)',
+             'exp(x*400)', '10^x^x^x', '2^2^2^2^2^2', 'exp(exp(10))', '1e400', '-1e400', '1e308/1e-308', '1/1e-308*10', '1e308^2',
+             '1e200*1e200', '(1e308*10)-(1e308*10)', '0*(1e308*10)', '1/(1e308*10)', 'tan(pi/2)^400', '1e308*i*10',
+             '(1e308+1e308*i)*(1e308+1e308*i)', 'exp(1000*i+1000)', '10^400*0', 'arctan(10^400)', 'sinh(1e308)', '1e308*1e308*1e308']
+ARRAY_OVERFLOWS = ['[1e308,1]*10', '1e308*[1,2]*10', 'A*1e308*1e308', '[1e308,1e308]*[1e308,1e308]', '[1,2]*10^400', 'A^1000',
+                   'A^(1e308)', '(1e200*A)^2', 'norm([1e308,1e308])', '[10^400,1]', 'A*[1e308,1e308]',
+                   '[[1e308,1e308],[1,1]]*[[1e308,1],[1e308,1]]', 'det(1e200*A)', 'exp(710)*[1,2]', 'A^-1000', '(1e-200*A)^-2',
+                   '[1e308,1]+[1e308,1]', '[1,2]/1e-308/1e-308']
+
+
+def form_rows():
+    """division by an expression that is exactly zero / arithmetic beyond the largest float, in many syntactic forms"""
+    rows = []
+    for f in DIVISIONS:
+        for a in NUMERATORS:
+            for z in ZERO_FORMS:
+                rows.append(('Formula', f % (a, z), 'division by zero', ('CalcZeroDivisionError',)))
+                if not set('nm') & set(a + z):
+                    rows.append(('Matrix', f % (a, z), 'division by zero', ('CalcZeroDivisionError',)))
+    for f in ARRAY_DIVISIONS:
+        for a in NUMERATORS:
+            for z in ZERO_FORMS:
+                if f == '%s*A/%s' and a == '1e308':
+                    continue          # 1e308*A overflows before the division is reached: the overflow error is the right one
+                if f == '%s*A/%s' and a == '0':
+                    # PENDING-FINDING: a zero MATRIX divided by zero (0*A/0) is an element-wise 0/0; numpy reports 'invalid value',
+                    # the library turns that into a bare ValueError and the student gets the generic "Could not check input"
+                    # message, while the scalar 0/0 gets the specific division-by-zero message.  Skipped until decided.
+                    continue
+                if not set('nm') & set(a + z):
+                    rows.append(('Matrix', f % (a, z), 'division by zero in an array expression', ('CalcZeroDivisionError',)))
+    for f in POWERS:
+        for a in BIG_BASES:
+            for b in BIG_EXPONENTS:
+                rows.append(('Formula', f % ((a, b) * (f.count('%s') // 2)), 'overflow in a power', ('CalcOverflowError',)))
+    for s in OVERFLOWS:
+        rows.append(('Formula', s, 'overflow', ('CalcOverflowError',)))
+        rows.append(('Matrix', s, 'overflow', ('CalcOverflowError',)))
+    for s in ARRAY_OVERFLOWS:
+        rows.append(('Matrix', s, 'overflow in an array expression', ('CalcOverflowError',)))
+    return rows
+
+
+class AnticipatedElsewhere(Family):
+    timeout = 60.0
+    timeout_sig = 'non-termination'
+
+    def __init__(self, name):
+        self.name = name
+        if name == 'anticipated_through_wrappers':
+            self.rule = ('every row of the anticipated-mistakes table whose box is a formula (resp. matrix) box, typed into that box when '
+                         'it sits in another grader: first / later / extra item of a SingleListGrader (ordered or not, nested), first / '
+                         'later box of a ListGrader (unordered, ordered, one grader per box, alternative answer lists, grouped, lists '
+                         'of single-box lists), an endpoint of an IntervalGrader, the lower limit / upper limit / summand of a '
+                         'SumGrader (4 boxes and summand-only): the same specific error class must reach the student, debug off')
+        elif name == 'anticipated_at_length':
+            self.rule = ('anticipated mistakes placed before / after / inside flat inputs of 10, 300 and 2000 terms, arguments, letters, '
+                         'digits, brackets or components (no nesting): the same specific error class as for the short input')
+        else:
+            self.rule = ('division: %d shapes of division x %d numerators (real, complex, huge, integer-valued variable / constant, user '
+                         'function) x %d expressions that are EXACTLY zero (literals 0 / 0.0 / .0 / 0e5 / underflowing 1e-400, -0, x-x, 0*x, '
+                         'underflowing product / power, 0^2, sin(0), floor(0.5), re(i), abs(0), complex zero, integer-valued n-7 and m-6), '
+                         'plus %d array shapes (Matrix grader): always CalcZeroDivisionError. overflow: %d shapes x %d bases >= 10 in modulus '
+                         '(real, negative, imaginary, complex, integer-valued) x %d exponents >= 400 (integer, float, huge, sampled, complex), '
+                         '%d scalar and %d array expressions beyond the largest float (sums, products, exp / cosh / sinh, towers, literals, '
+                         'inf-inf, 0*inf, 1/inf, matrix powers, norm, det): always CalcOverflowError -- never the generic message, debug off'
+                         % (len(DIVISIONS), len(NUMERATORS), len(ZERO_FORMS), len(ARRAY_DIVISIONS), len(POWERS), len(BIG_BASES),
+                            len(BIG_EXPONENTS), len(OVERFLOWS), len(ARRAY_OVERFLOWS)))
+
+    def setup(self, tier):
+        if self.name == 'anticipated_through_wrappers':
+            self.wr = wrapper_graders()
+            self.rows = wrapped_rows()
+        else:
+            self.gn = math_graders(False)
+            self.rows = long_rows() if self.name == 'anticipated_at_length' else form_rows()
+
+    def cases(self, tier):
+        n = len({'anticipated_through_wrappers': wrapped_rows, 'anticipated_at_length': long_rows}.get(self.name, form_rows)())
+        return iter(range(n))
+
+    def unpack(self, case):
+        if self.name == 'anticipated_through_wrappers':
+            name, b, j = self.rows[case]
+            g, _, builders = self.wr[name]
+            _, text, what, classes = ANTICIPATED[j]
+            return g, name, builders[b](text), what, classes
+        k, text, what, classes = self.rows[case]
+        return self.gn[k], k, text, what, classes
+
+    def describe(self, case):
+        if not hasattr(self, 'rows'):
+            self.setup('quick')
+        _, name, inp, what, classes = self.unpack(case)
+        short = inp if isinstance(inp, list) or len(inp) < 80 else inp[:40] + ' ... ' + inp[-30:]
+        return {'grader': name, 'input': short, 'problem': what, 'expected_error': list(classes)}
+
+    def check(self, case):
+        g, name, inp, what, classes = self.unpack(case)
+        fresh_parser_every(self, 2000)
+        shown = inp if isinstance(inp, list) or len(inp) < 80 else inp[:40] + ' ... ' + inp[-30:]
+
+        def body(ch):
+            try:
+                return ('ok', g(None, inp))
+            except Exception as e:
+                return ('err', e)
+        _, got = chooser.run_with(body)
+        tag = self.name.split('_', 1)[-1] + ':' + name
+        if got[0] == 'ok':
+            return Result('graded', True, viol(tag + ':graded-instead-of-error:' + what.replace(' ', '-'),
+                                               '%s, input %r (%s): expected %s, but it was graded: %r' % (name, shown, what, '/'.join(classes), got[1]),
+                                               list(classes), got[1]))
+        e = got[1]
+        names = [c.__name__ for c in type(e).__mro__]
+        if not any(c in names for c in classes):
+            return Result('wrong-class:' + type(e).__name__, True,
+                          viol(tag + ':specific-error-lost:' + what.replace(' ', '-'),
+                               '%s, input %r (%s): expected %s, got %s: %s' % (name, shown, what, '/'.join(classes), type(e).__name__, str(e)[:200]),
+                               list(classes), '%s: %s' % (type(e).__name__, str(e)[:200])))
+        if '\n' in str(e).replace('<br/>\n', ''):
+            return Result('newline', True, viol(tag + ':raw-line-break', 'message of %s has a raw line break' % type(e).__name__))
+        return Result('kept:' + type(e).__name__, True)
+
+
+# ---------------------------------------------------------------------------------------------------------------
+# Documented refusals of the graders that are not formula evaluators, and of FormulaGrader's restriction options: the
+# class (and, where the AUTHOR configured the text, the exact message with <br/> for line breaks) is fixed by the docs.
+
+def refusal_graders():
+    S = StringGrader
+    A = MathArray([[1.0, 2.0], [3.0, 5.0]])
+    return {
+        'SL': SingleListGrader(answers=['a', 'b'], subgrader=S()),
+        'SL_len': SingleListGrader(answers=['a', 'b'], subgrader=S(), length_error=True),
+        'SL_nested': SingleListGrader(answers=[['a', 'b'], ['c', 'd']], subgrader=SingleListGrader(subgrader=S()), delimiter=';'),
+        'SL_formula': SingleListGrader(answers=['1', 'x'], subgrader=FormulaGrader(variables=['x'])),
+        'Str_pattern': S(answers='12', validation_pattern=r'\d+', invalid_msg='Digits only.\nTry again.\n\n(no letters)'),
+        'Str_pattern_default': S(answers='12', validation_pattern=r'\d+'),
+        'Str_min': S(accept_any=True, min_length=3),
+        'Str_words': S(accept_any=True, min_words=2),
+        'Str_nonempty': S(accept_nonempty=True),
+        'F_forbid': FormulaGrader(answers='2*x', variables=['x'], forbidden_strings=['+'], forbidden_message='Do not add.\nMultiply instead.\n'),
+        'F_forbid_default': FormulaGrader(answers='2*x', variables=['x'], forbidden_strings=['+']),
+        'F_required': FormulaGrader(answers='sin(x)', variables=['x'], required_functions=['sin']),
+        'F_white': FormulaGrader(answers='sin(x)', variables=['x'], whitelist=['sin']),
+        'F_white_none': FormulaGrader(answers='x', variables=['x'], whitelist=[None]),
+        'F_black': FormulaGrader(answers='sin(x)', variables=['x'], blacklist=['cos']),
+        'F_instructor': FormulaGrader(answers='c*x', variables=['x', 'c'], instructor_vars=['c']),
+        'N_between': NumericalGrader(answers={'comparer': between_comparer, 'comparer_params': ['1', '3']}),
+        'L_sibling': ListGrader(answers=['x', 'sibling_1^2'], subgraders=FormulaGrader(variables=['x']), ordered=True),
+        'L_two': ListGrader(answers=['a', 'b'], subgraders=S()),
+        'Sum': SumGrader(answers=dict(lower='1', upper='3', summand='k', summation_variable='k'), variables=['x']),
+        'Interval': IntervalGrader(answers='[1,2)'),
+        'M_noneg': MatrixGrader(answers='A', variables=['A'], sample_from={'A': DiscreteSet(A)}, max_array_dim=2, negative_powers=False),
+        'M_shape_detail': MatrixGrader(answers='[1,2]', answer_shape_mismatch={'is_raised': True, 'msg_detail': 'shape'}),
+    }
+
+
+REFUSALS = [
+    # (grader, input, documented refusal, acceptable classes, exact message or None)
+    ('SL', 'a,,b', 'empty list entry', ('MissingInput',), None),
+    ('SL', ',a', 'empty first list entry', ('MissingInput',), None),
+    ('SL', 'a,', 'empty last list entry', ('MissingInput',), None),
+    ('SL', 'a, ,b', 'blank list entry', ('MissingInput',), None),
+    ('SL', '', 'empty list', ('MissingInput',), None),
+    ('SL_len', 'a', 'too few list entries', ('MissingInput',), None),
+    ('SL_len', 'a,b,c', 'too many list entries', ('MissingInput',), None),
+    ('SL_nested', 'a,b;', 'empty inner list', ('MissingInput',), None),
+    ('SL_nested', 'a,;c,d', 'empty inner entry', ('MissingInput',), None),
+    ('SL_formula', '1,,x', 'empty formula entry', ('MissingInput',), None),
+    ('Str_pattern', 'abc', 'input not matching the validation pattern',
+     ('InvalidInput',), 'Digits only.<br/>Try again.<br/><br/>(no letters)'),
+    ('Str_pattern', '12a', 'input with a matching prefix only', ('InvalidInput',), 'Digits only.<br/>Try again.<br/><br/>(no letters)'),
+    ('Str_pattern', '', 'empty input against a pattern', ('InvalidInput',), 'Digits only.<br/>Try again.<br/><br/>(no letters)'),
+    ('Str_pattern_default', 'abc', 'input not matching the pattern default message', ('InvalidInput',), 'Your input is not in the expected format'),
+    ('Str_min', 'ab', 'response below the minimum length', ('InvalidInput',), None),
+    ('Str_min', '', 'empty response below the minimum length', ('InvalidInput',), None),
+    ('Str_words', 'one', 'response below the minimum word count', ('InvalidInput',), None),
+    ('Str_nonempty', '', 'empty response where non-empty is required', ('InvalidInput',), None),
+    ('Str_nonempty', '   ', 'blank response where non-empty is required', ('InvalidInput',), None),
+    ('F_forbid', 'x+x', 'correct answer with a forbidden string', ('InvalidInput',), 'Do not add.<br/>Multiply instead.<br/>'),
+    ('F_forbid', 'x + x', 'correct answer with a forbidden string and spaces', ('InvalidInput',), 'Do not add.<br/>Multiply instead.<br/>'),
+    ('F_forbid_default', 'x+x', 'correct answer with a forbidden string default message', ('InvalidInput',),
+     'Invalid Input: This particular answer is forbidden'),
+    ('F_required', 'cos(x-pi/2)', 'correct answer without the required function', ('InvalidInput',), None),
+    ('F_white', 'cos(x-pi/2)', 'correct answer with a function not on the whitelist', ('InvalidInput',), None),
+    ('F_white_none', 'sqrt(x^2)', 'correct answer with a function when none is allowed', ('InvalidInput',), None),
+    ('F_black', 'cos(x-pi/2)', 'correct answer with a blacklisted function', ('InvalidInput',), None),
+    ('F_instructor', 'c*x', 'instructor variable used by the student', ('UndefinedVariable',), None),
+    ('N_between', 'i', 'complex input where a real is required', ('InputTypeError',), None),
+    ('N_between', '2+i', 'complex input where a real is required 2', ('InputTypeError',), None),
+    ('L_sibling', ['', 'x^2'], 'blank box that another answer depends on', ('MissingInput',), None),
+    ('L_two', ['a'], 'too few boxes', ('ConfigError',), None),
+    ('L_two', ['a', 'b', 'c'], 'too many boxes', ('ConfigError',), None),
+    ('Sum', ['', '3', 'k', 'k'], 'blank lower limit', ('MissingInput',), None),
+    ('Sum', ['1', '3', '', 'k'], 'blank summand', ('MissingInput',), None),
+    ('Sum', ['1', '3', 'k', ''], 'blank summation variable', ('MissingInput',), None),
+    ('Sum', ['1.5', '3', 'k', 'k'], 'non-integer lower limit', ('SummationError',), None),
+    ('Sum', ['1', 'pi', 'k', 'k'], 'non-integer upper limit', ('SummationError',), None),
+    ('Sum', ['i', '3', 'k', 'k'], 'complex lower limit', ('SummationError', 'InvalidInput'), None),
+    ('Sum', ['infty', 'infty', 'k', 'k'], 'sum from infinity to infinity', ('SummationError',), None),
+    ('Sum', ['-infty', '-infty', 'k', 'k'], 'sum from -infinity to -infinity', ('SummationError',), None),
+    ('Sum', ['1', '3', 'x', 'x'], 'summation variable that is a variable of the problem', ('SummationError', 'InvalidInput'), None),
+    ('Sum', ['1', '3', 'pi', 'pi'], 'summation variable that is a constant', ('InvalidInput',), None),
+    ('Sum', ['1', '3', 'sin', 'sin'], 'summation variable that is a function', ('InvalidInput',), None),
+    ('Sum', ['1', '3', '2k', '2k'], 'summation variable that is not a name', ('InvalidInput',), None),
+    ('Sum', ['1', '3', 'k'], 'too few boxes for a sum', ('ConfigError',), None),
+    ('Interval', '{1,2)', 'opening bracket that is not allowed', ('InvalidInput',), None),
+    ('Interval', '[1,2}', 'closing bracket that is not allowed', ('InvalidInput',), None),
+    ('Interval', '[1,,2)', 'empty endpoint', ('MissingInput',), None),
+    ('Interval', '[1,2,3)', 'three endpoints', ('MissingInput',), None),
+    ('M_noneg', 'A^-1', 'negative matrix power when disabled', ('MathArrayError',), None),
+    ('M_noneg', 'A^-2*A', 'negative matrix power when disabled 2', ('MathArrayError',), None),
+    ('M_shape_detail', '[1,2,3]', 'answer of the wrong shape with shape detail', ('InputTypeError',), None),
+    ('M_shape_detail', '[[1,2],[3,4]]', 'matrix for a vector answer', ('InputTypeError', 'UnableToParse'), None),
+]
+
+
+class Refusals(Anticipated):
+    name = 'documented_refusals'
+    rule = ('a table of %d documented refusals outside formula evaluation: empty / missing / surplus entries of a SingleListGrader '
+            '(flat, nested, with length check), StringGrader validation pattern and minimum length / words / non-empty, FormulaGrader '
+            'forbidden strings, required functions, whitelist, blacklist, instructor variables (on otherwise CORRECT answers), a real-only '
+            'comparer given a complex number, a blank box another answer depends on, wrong box counts, SumGrader blank / non-integer / '
+            'complex / infinite limits and illegal summation variables, IntervalGrader brackets and endpoint counts, disabled negative '
+            'matrix powers; each alone and after all the others, debug off (default): the documented class must reach the student, and '
+            'where the AUTHOR configured the text (also with several line breaks) exactly that text with <br/> for every line break'
+            % len(REFUSALS))
+    tag = 'refusal'
+
+    def table(self):
+        return REFUSALS
+
+    def build(self):
+        return refusal_graders()
 
 
 NONTEXT = [None, 5, 1.5, b'x', ('a',), {'a': 1}, [], [None], ['a', 5], [['a']], ['a', ['b']], True, object,
@@ -558,6 +953,361 @@ class NonText(Family):
         return Result(o, True, v, 1)
 
 
+# ---------------------------------------------------------------------------------------------------------------
+# Author-written code that fails while a submission is checked (documented: only exceptions inheriting from MITxError
+# show their message; any other error is replaced by the generic message).  The oracle is a closed formula.
+
+class AuthorError(StudentFacingError):
+    """an author's own student-facing error class"""
+
+
+class AuthorBug(Exception):
+    """an author's own exception class outside the library's family"""
+
+
+class ValueKeyError(ValueError, KeyError):
+    """an exception with two built-in bases"""
+
+
+SECRET = 'internal detail {0} %s\nsecond line <br/> of the traceback'
+
+
+def foreign_kinds():
+    import numpy
+    import voluptuous
+    import pyparsing
+    return collections.OrderedDict([
+        ('ValueError', lambda: ValueError(SECRET)), ('TypeError', lambda: TypeError(SECRET)), ('KeyError', lambda: KeyError(SECRET)),
+        ('IndexError', lambda: IndexError(SECRET)), ('AttributeError', lambda: AttributeError(SECRET)),
+        ('ZeroDivisionError', lambda: ZeroDivisionError(SECRET)), ('OverflowError', lambda: OverflowError(34, SECRET)),
+        ('FloatingPointError', lambda: FloatingPointError(SECRET)), ('ArithmeticError', lambda: ArithmeticError(SECRET)),
+        ('RecursionError', lambda: RecursionError(SECRET)), ('RuntimeError', lambda: RuntimeError(SECRET)),
+        ('NotImplementedError', lambda: NotImplementedError()), ('MemoryError', lambda: MemoryError()),
+        ('AssertionError', lambda: AssertionError()), ('StopIteration', lambda: StopIteration(SECRET)),
+        ('UnicodeDecodeError', lambda: UnicodeDecodeError('utf-8', b'\xff', 0, 1, SECRET)), ('OSError', lambda: OSError(2, SECRET)),
+        ('TimeoutError', lambda: TimeoutError(SECRET)), ('ImportError', lambda: ImportError(SECRET)),
+        ('ModuleNotFoundError', lambda: ModuleNotFoundError("No module named 'scipy'")), ('NameError', lambda: NameError(SECRET)),
+        ('LookupError', lambda: LookupError(SECRET)), ('EOFError', lambda: EOFError(SECRET)), ('BufferError', lambda: BufferError(SECRET)),
+        ('SystemError', lambda: SystemError(SECRET)), ('UserWarning', lambda: UserWarning(SECRET)),
+        ('DeprecationWarning', lambda: DeprecationWarning(SECRET)), ('Exception', lambda: Exception(SECRET)),
+        ('LinAlgError', lambda: numpy.linalg.LinAlgError(SECRET)), ('voluptuous.Invalid', lambda: voluptuous.Invalid(SECRET)),
+        ('voluptuous.MultipleInvalid', lambda: voluptuous.MultipleInvalid([voluptuous.Invalid(SECRET)])),
+        ('pyparsing.ParseException', lambda: pyparsing.ParseException(SECRET, 0, SECRET)),
+        ('AuthorBug', lambda: AuthorBug(SECRET)), ('ValueKeyError', lambda: ValueKeyError(SECRET)),
+    ])
+
+
+LIBRARY_KINDS = collections.OrderedDict([
+    ('MITxError', MITxError), ('ConfigError', ConfigError), ('StudentFacingError', StudentFacingError), ('InvalidInput', InvalidInput),
+    ('InputTypeError', InputTypeError), ('MissingInput', MissingInput), ('CalcError', CalcError), ('UndefinedVariable', UndefinedVariable),
+    ('MathArrayShapeError', MathArrayShapeError), ('AuthorError', AuthorError),
+])
+LIBRARY_MESSAGES = ['', 'plain', 'two\nlines', '\nleading and trailing\n', 'a\n\n\nb', 'already <br/> and\nbreak', 'braces {0} {x} }{\n{}',
+                    'percent %s %d %\n%%', 'é １\nü', "Invalid Input: Could not check input 'x'\n(not really)"]
+TEXTS = ['cat', '', ' ', "it's", '{', '}', '{0}', '{x}', '{}', '{0', '%s', '%d%%', '%(a)s', 'a\nb', '<br/>', 'é１', '\\', '"',
+         "', '", 'x' * 300, '\t', 'None', '0']
+FORMULA_TEXTS = ['1', ' x ', 'a_{1}', 'a_{0} + a_{-2}', "x'", '2*a_{1}^2']
+
+
+class Exploding(ItemGrader):
+    """An author-written grading class (public extension point: subclass ItemGrader, implement check_response) whose
+    check_response always fails with the configured exception."""
+    @property
+    def schema_config(self):
+        return super(Exploding, self).schema_config.extend({Required('kind'): str, Required('emsg', default=''): str})
+
+    def check_response(self, answer, student_input, **kwargs):
+        raise make_exception(self.config['kind'], self.config['emsg'])
+
+
+def make_exception(kind, emsg):
+    if kind in LIBRARY_KINDS:
+        return LIBRARY_KINDS[kind](emsg)
+    return foreign_kinds()[kind]()
+
+
+def exploding_wrappers(kind, emsg):
+    E = lambda: Exploding(answers='cat', kind=kind, emsg=emsg)
+
+    def comparer(comparer_params_eval, student_eval, utils):
+        raise make_exception(kind, emsg)
+    fscope = dict(variables=['x', "x'"], numbered_vars=['a'], samples=2)
+    return collections.OrderedDict([
+        # name -> (grader, number of boxes, alphabet of texts)
+        ('item', (E(), 1, TEXTS)),
+        ('single_list_item', (SingleListGrader(answers=['cat', 'dog'], subgrader=E(), delimiter=';', missing_error=False), 1, TEXTS)),
+        ('list_box', (ListGrader(answers=['cat', 'dog'], subgraders=E()), 2, TEXTS)),
+        ('list_later_box_only', (ListGrader(answers=['cat', 'dog'], subgraders=[StringGrader(), E()], ordered=True), 2, TEXTS)),
+        ('list_grouped', (ListGrader(answers=[['cat', 'dog'], ['cat', 'dog']], subgraders=ListGrader(subgraders=E()),
+                                     grouping=[1, 1, 2, 2]), 4, TEXTS)),
+        ('formula_comparer', (FormulaGrader(answers={'comparer': comparer, 'comparer_params': ['1']}, **fscope), 1, FORMULA_TEXTS)),
+        ('formula_comparer_in_list', (ListGrader(answers=[{'comparer': comparer, 'comparer_params': ['1']}, '1'],
+                                                 subgraders=FormulaGrader(**fscope), ordered=True), 2, FORMULA_TEXTS)),
+    ])
+
+
+WRAPPER_NAMES = ['item', 'single_list_item', 'list_box', 'list_later_box_only', 'list_grouped', 'formula_comparer',
+                 'formula_comparer_in_list']
+WRAPPER_BOXES = {'item': 1, 'single_list_item': 1, 'list_box': 2, 'list_later_box_only': 2, 'list_grouped': 4, 'formula_comparer': 1,
+                 'formula_comparer_in_list': 2}
+
+
+class AuthorCodeFails(Family):
+    name = 'author_code_failures'
+    timeout = 10.0
+    timeout_sig = 'non-termination'
+    rule = ('an author-written ItemGrader subclass / comparer function that raises, used alone, as the item grader of a SingleListGrader, '
+            'as the grader of every box / of a later box only / of grouped boxes of a ListGrader, and as the comparer of a FormulaGrader '
+            '(alone and in a list); x %d exception classes outside the library family (built-ins incl. MemoryError, ImportError, '
+            'StopIteration, warnings; numpy, voluptuous, pyparsing; author-defined; two bases) x %d student texts (blank, quotes, braces, '
+            'percent signs, line break, <br/>, non-ASCII, the separator of the list message itself, 300 characters; formulas with '
+            'numbered variables a_{1}) in every box position: exactly the generic StudentFacingError naming the submission, nothing of '
+            'the internal message; x %d library classes (incl. the base class and an author subclass) x %d messages (empty, several / '
+            'leading / trailing / consecutive line breaks, braces, percent signs, literal <br/>, non-ASCII): same class, every line '
+            'break as <br/>' % (len(foreign_kinds()), len(TEXTS), len(LIBRARY_KINDS), len(LIBRARY_MESSAGES)))
+
+    def setup(self, tier):
+        self.cache = {}
+
+    def cases(self, tier):
+        fk = list(foreign_kinds())
+        for w in WRAPPER_NAMES:
+            ntexts = len(FORMULA_TEXTS) if w.startswith('formula') else len(TEXTS)
+            for k in range(len(fk)):
+                for t in range(ntexts):
+                    for pos in range(WRAPPER_BOXES[w]):
+                        yield (w, 'foreign', k, 0, t, pos)
+            for k in range(len(LIBRARY_KINDS)):
+                for m in range(len(LIBRARY_MESSAGES)):
+                    for t in (0, 2 if w.startswith('formula') else 6):
+                        for pos in range(WRAPPER_BOXES[w]):
+                            yield (w, 'library', k, m, t, pos)
+
+    def unpack(self, case):
+        w, fam, k, m, t, pos = case
+        kind = list(foreign_kinds())[k] if fam == 'foreign' else list(LIBRARY_KINDS)[k]
+        emsg = LIBRARY_MESSAGES[m] if fam == 'library' else ''
+        texts = FORMULA_TEXTS if w.startswith('formula') else TEXTS
+        n = WRAPPER_BOXES[w]
+        filler = '1' if w.startswith('formula') else 'cat'
+        inp = texts[t] if n == 1 else [texts[t] if i == pos else filler for i in range(n)]
+        return w, fam, kind, emsg, inp
+
+    def describe(self, case):
+        w, fam, kind, emsg, inp = self.unpack(case)
+        return {'used_as': w, 'raises': kind, 'message': emsg if fam == 'library' else SECRET, 'student_input': inp}
+
+    def check(self, case):
+        w, fam, kind, emsg, inp = self.unpack(case)
+        key = (w, kind, emsg)
+        if key not in self.cache:
+            if len(self.cache) > 400:
+                self.cache.clear()
+            self.cache[key] = exploding_wrappers(kind, emsg)[w][0]
+        g = self.cache[key]
+        fresh_parser_every(self, 5000)
+
+        def body(ch):
+            try:
+                return ('ok', g(None, inp))
+            except BaseException as e:
+                if isinstance(e, (KeyboardInterrupt, SystemExit)) or type(e).__name__ == 'Watchdog':
+                    raise
+                return ('err', e)
+        _, got = chooser.run_with(body)
+        where = '%s raising %s, input %r' % (w, kind, inp)
+        if got[0] == 'ok':
+            return Result('graded', True, viol('%s:failure-swallowed:%s' % (w, kind), '%s: a result was returned: %r' % (where, got[1])), 1)
+        e = got[1]
+        name = type(e).__name__
+        msg = str(e)
+        if fam == 'foreign':
+            if not isinstance(e, MITxError):
+                return Result('escaped:' + name, True, viol('%s:foreign-exception-escapes:%s' % (w, name),
+                                                            '%s: %s escaped the grader: %s' % (where, name, msg[:200]),
+                                                            'StudentFacingError', repr(e)[:300]), 1)
+            if type(e) is not StudentFacingError:
+                return Result('internal-wrong-class', True, viol('%s:internal-failure-not-generic:%s->%s' % (w, kind, name),
+                                                                 '%s: surfaced as %s: %s' % (where, name, msg[:200]), 'StudentFacingError', name), 1)
+            if msg != generic_message(inp):
+                return Result('internal-wrong-message', True,
+                              viol('%s:generic-message-wrong' % w, '%s: message %r, expected %r' % (where, msg[:300], generic_message(inp)[:300]),
+                                   generic_message(inp)[:400], msg[:400]), 1)
+            return Result('generic', True, None, 1)
+        cls = LIBRARY_KINDS[kind]
+        if type(e) is not cls:
+            return Result('class-changed', True, viol('%s:error-class-changed:%s->%s' % (w, kind, name),
+                                                      '%s (message %r): surfaced as %s: %s' % (where, emsg, name, msg[:200]), kind, name), 1)
+        exp = emsg.replace('\n', '<br/>')
+        if msg != exp:
+            return Result('message-changed', True, viol('%s:error-message-changed' % w,
+                                                        '%s: message %r, expected %r' % (where, msg[:300], exp[:300]), exp[:400], msg[:400]), 1)
+        return Result('kept:' + kind, True, None, 1)
+
+
+class NaturalInternalFailures(Family):
+    name = 'internal_failures_with_braces'
+    timeout = 10.0
+    timeout_sig = 'non-termination'
+    rule = ('the parallel operator applied to a vector (an internal failure that is not anticipated: the debug twin shows a raw built-in '
+            'exception) in formulas that contain numbered / tensor-style variable names with curly braces and primes, submitted to a '
+            'MatrixGrader alone, in both boxes of a ListGrader and as an item of a SingleListGrader: the generic message must quote '
+            'the submission verbatim, braces included')
+    FORMULAS = ['1||[1,2]', 'a_{1}||[1,2]', '[1,2]||a_{0}', "x'||[a_{1},a_{-2}]", 'a_{12}*([1,2]||[1,2])', 'a_{1}||[1,2]+{', '}||[1,2]',
+                '1e308+a_{1}', 'abs(1e308)*a_{1}/a_{1}']
+
+    def graders(self, debug):
+        d = dbg(debug)
+        scope = dict(variables=['x', "x'"], numbered_vars=['a'], sample_from={'a': [1, 1.5]}, samples=2)
+        return {
+            'Matrix': MatrixGrader(answers='[1,2]', **dict(scope, **d)),
+            'Formula': FormulaGrader(answers="x'+a_{1}", **dict(scope, **d)),
+            'List': ListGrader(answers=['[1,2]', 'x'], subgraders=MatrixGrader(**dict(scope, **d)), **d),
+            'SingleList': SingleListGrader(answers=['[1,2]', 'x'], subgrader=MatrixGrader(**scope), delimiter=';', **d),
+        }
+
+    def setup(self, tier):
+        self.gd = self.graders(True)
+        self.gn = self.graders(False)
+
+    def cases(self, tier):
+        for g in ('Matrix', 'Formula', 'List', 'SingleList'):
+            for i in range(len(self.FORMULAS)):
+                for pos in range(2 if g in ('List', 'SingleList') else 1):
+                    yield (g, i, pos)
+
+    def describe(self, case):
+        return {'grader': case[0], 'input': self.build(case)}
+
+    def build(self, case):
+        g, i, pos = case
+        s = self.FORMULAS[i]
+        if g == 'List':
+            return [s, 'x'] if pos == 0 else ['x', s]
+        if g == 'SingleList':
+            return s + ';x' if pos == 0 else 'x;' + s
+        return s
+
+    def check(self, case):
+        inp = self.build(case)
+        raw, got = run_pair(self.gd[case[0]], self.gn[case[0]], inp)
+        o, nt, v = judge(raw, got, inp, case[0] + ':braces')
+        return Result(o, nt, v, 2)
+
+
+# ---------------------------------------------------------------------------------------------------------------
+# Non-text entries at EVERY position of a list of boxes, falsy objects, containers of the right length that are not lists
+
+def entry_objects():
+    return [None, 0, 1, 0.0, 1.5, float('nan'), False, True, b'', b'1', bytearray(b'1'), (), ('1',), [], ['1'], {}, {'1': 1}, set(),
+            frozenset(['1']), 1j, object(), str, range(1), Ellipsis]
+
+
+def whole_objects(valid):
+    """objects built from the valid texts of a grader that are not a list of texts / not a text"""
+    import numpy
+    texts = valid if isinstance(valid, list) else [valid]
+    objs = [tuple(texts), tuple(tuple([t]) for t in texts), dict.fromkeys(texts), dict(enumerate(texts)), set(texts[:1]),
+            frozenset(texts[:1]), iter(texts), (t for t in texts), range(len(texts)), numpy.array(texts), numpy.array(texts, dtype=object),
+            ','.join(texts).encode(), bytearray(','.join(texts).encode()), collections.deque(texts), len(texts)]
+    if isinstance(valid, list):
+        objs += [[texts], [tuple(texts)], [[t] for t in texts], texts + [None], [None] + texts, texts[:-1] + [texts[-1].encode()]]
+    else:
+        objs += [0, 0.0, False, b'', (), {}, set(), 1j, float('nan'), [valid], [[valid]], (valid,), [valid, valid], [valid, None], [None, valid],
+                 [0], [b''], [False]]
+    return objs
+
+
+def position_graders():
+    g = {}
+    for k, (gr, kind) in list_graders(False).items():
+        g[k] = (gr, None)
+    for k, gr in math_graders(False).items():
+        g[k] = (gr, None)
+    isub = lambda: FormulaGrader(variables=['x'])
+    # graders WITHOUT configured answers, called with an expect value (answers are inferred from it before grading)
+    g['Infer:String'] = (StringGrader(), 'cat')
+    g['Infer:StringAcceptAny'] = (StringGrader(accept_any=True), None)
+    g['Infer:Formula'] = (FormulaGrader(variables=['x']), 'x')
+    g['Infer:Numerical'] = (NumericalGrader(), '1')
+    g['Infer:Matrix'] = (MatrixGrader(), '[1,2]')
+    g['Infer:SingleList'] = (SingleListGrader(subgrader=isub()), '1,x')
+    g['Infer:Interval'] = (IntervalGrader(), '[1,2)')
+    return g
+
+
+VALID = {'SingleList': '1,x', 'SingleListSemi': '1;x', 'SingleListNested': '1,x;x,1', 'Interval': '[1,2)', 'IntervalFormula': '[x,2*x]',
+         'String': '1', 'List2': ['1', 'x'], 'List2Ordered': ['1', '1+x'], 'List3Siblings': ['x+y', 'x', 'y'],
+         'ListGrouped': ['1', 'x', 'x', '1'], 'Sum': ['1', '3', 'x', 'x'], 'Sum1': 'n', 'ListMixed': ['1', 'x'],
+         'ListOfSingleLists': ['1,x', 'x,1'], 'ListAlternatives': ['1', 'x'], 'Formula': 'x+1', 'Numerical': '2.5', 'Matrix': '[1,2]',
+         'Infer:String': 'cat', 'Infer:StringAcceptAny': 'cat', 'Infer:Formula': 'x', 'Infer:Numerical': '1', 'Infer:Matrix': '[1,2]',
+         'Infer:SingleList': '1,x', 'Infer:Interval': '[1,2)'}
+
+
+class NonTextPositions(Family):
+    name = 'non_text_positions'
+    timeout = 10.0
+    timeout_sig = 'non-termination'
+    rule = ('every grader of the shapes families, the three formula graders, and 7 item graders WITHOUT configured answers called with an '
+            'expect value (answers inferred first); the fully CORRECT submission of each with (a) one box at a time -- every position, '
+            'first to last -- replaced by each of %d non-text objects (None, 0, 0.0, nan, False, True, empty and non-empty bytes / tuple '
+            '/ list / dict / set, complex, object, a class, range, Ellipsis), (b) the whole submission replaced by a tuple / tuple of '
+            'tuples / dict / set / iterator / generator / range / numpy array / bytes / deque of the right length built from the '
+            'correct texts, a list nested once more, a list with a surplus None, and for single-box graders falsy objects and short '
+            'lists: always ConfigError, never a grade (a text control case must be graded)' % len(entry_objects()))
+
+    def setup(self, tier):
+        self.g = position_graders()
+
+    def cases(self, tier):
+        names = list(position_graders().keys())
+        nobj = len(entry_objects())
+        for n in names:
+            v = VALID[n]
+            yield (n, 'control', 0, 0)
+            if isinstance(v, list):
+                for pos in range(len(v)):
+                    for o in range(nobj):
+                        yield (n, 'entry', pos, o)
+            for o in range(len(whole_objects(v))):
+                yield (n, 'whole', 0, o)
+
+    def build(self, case):
+        n, mode, pos, o = case
+        v = VALID[n]
+        if mode == 'control':
+            return list(v) if isinstance(v, list) else v
+        if mode == 'entry':
+            inp = list(v)
+            inp[pos] = entry_objects()[o]
+            return inp
+        return whole_objects(v)[o]
+
+    def describe(self, case):
+        return {'grader': case[0], 'input': repr(self.build(case))[:200]}
+
+    def check(self, case):
+        n, mode, pos, o = case
+        g, expect = self.g[n]
+        inp = self.build(case)
+        shown = repr(inp)[:200]
+        if n == 'Sum1' and isinstance(inp, list) and len(inp) == 1 and isinstance(inp[0], str):
+            return Result('skipped', False, None, 0)          # SumGrader documents a one-element list for a single box
+
+        def body(ch):
+            try:
+                return ('ok', g(expect, inp))
+            except Exception as e:
+                return ('err', e)
+        _, got = chooser.run_with(body)
+        if mode == 'control':
+            if got[0] != 'ok' or (got[1].get('ok') if 'ok' in got[1] else all(x['ok'] for x in got[1]['input_list'])) is not True:
+                raise HarnessError('control submission %r of %s is not graded correct: %r' % (inp, n, got))
+            return Result('control-graded', False, None, 1)
+        o_, nt, v = judge(None, got, shown, n + ':' + mode, text_input=False)
+        return Result(o_, True, v, 1)
+
+
 def families(tier):
     return [
         TokenStrings('token_strings', TOKENS, {'quick': 4, 'thorough': 5}),
@@ -568,4 +1318,11 @@ def families(tier):
         ListShapes(),
         Anticipated(),
         NonText(),
+        Refusals(),
+        AnticipatedElsewhere('anticipated_through_wrappers'),
+        AnticipatedElsewhere('anticipated_at_length'),
+        AnticipatedElsewhere('anticipated_zero_and_overflow_forms'),
+        AuthorCodeFails(),
+        NaturalInternalFailures(),
+        NonTextPositions(),
     ]
